@@ -214,7 +214,7 @@ def theorem_info(prop: str) -> dict:
         info["error"] = "no theorem file"
         return info
     txt = open(path).read()
-    info["theorems"] = re.findall(r"^\s*Theorem\s+(\w+)", txt, flags=re.M)
+    info["theorems"] = re.findall(r"^\s*(?:Theorem|Corollary)\s+(\w+)", txt, flags=re.M)
     try:
         p = subprocess.run(["coqc", "-Q", COQ, "PM", path], capture_output=True, text=True,
                            timeout=900, cwd=os.path.join(COQ, "Properties"))
